@@ -563,6 +563,14 @@ def rule_T16(text):
     (dashmap's RefMut dereferences to the entry: assigning a field through it IS an update of that entry of the map). Only when V is
     used for nothing but such field assignments; anything else is left alone (and then does not compile: UNDECIDED)."""
     fired = 0
+    while True:                                   # the inline form: G.value_mut().FIELD = EXPR;
+        mask = code_mask(text)
+        m = re.search(r'\b(\w+)\s*\.\s*value_mut\s*\(\s*\)\s*\.\s*(\w+)\s*=(?!=)\s*', mask)
+        if not m:
+            break
+        e = mask.index(';', m.end())
+        text = text[:m.start()] + '%s.verif_set_%s(%s)' % (m.group(1), m.group(2), text[m.end():e].strip()) + text[e:]
+        fired += 1
     while True:
         mask = code_mask(text)
         m = re.search(r'\blet\s+(\w+)\s*=\s*(\w+)\s*\.\s*value_mut\s*\(\s*\)\s*;[ \t]*\n?', mask)
@@ -585,7 +593,43 @@ def rule_T16(text):
     return text, fired
 
 
-RULES = {'T1': rule_T1, 'T2': rule_T2, 'T3': rule_T3, 'T5': rule_T5, 'T9': rule_T9, 'T10': rule_T10, 'T11': rule_T11, 'T12': rule_T12, 'T13': rule_T13, 'T14': rule_T14, 'T15': rule_T15, 'T16': rule_T16}
+def rule_T17(text):
+    """`ITER.for_each(|x| { BODY });` as a statement over an iterator that T1 / T2 / T5 do not handle (e.g. `receiver.iter()`) is the
+    loop `for x in ITER { BODY }` (the definition of Iterator::for_each); T9 then writes that loop with an explicit `next()`."""
+    fired = 0
+    pos = 0
+    while True:
+        mask = code_mask(text)
+        m = re.search(r'\.\s*for_each\s*\(\s*\|\s*(\w+)\s*\|', mask[pos:])
+        if not m:
+            break
+        fe = pos + m.start()
+        # the receiver expression: back to the start of the statement
+        st = max(mask.rfind(';', 0, fe), mask.rfind('{', 0, fe), mask.rfind('}', 0, fe)) + 1
+        recv = text[st:fe].strip()
+        if re.search(r'\.\.', code_mask(recv)) or re.search(r'\.\s*iter(_mut)?\s*\(\s*\)\s*$', code_mask(recv)) and not re.search(r'receiver', recv):
+            pos = fe + 1
+            continue
+        op = mask.index('(', fe)
+        cp = match_brace(mask, op, '(', ')')
+        body_s = pos + m.end()
+        body = text[body_s:cp].strip()
+        if not body.startswith('{'):
+            body = '{ ' + body + '; }'
+        end = cp + 1
+        k = end
+        while k < len(mask) and mask[k] in ' \t':
+            k += 1
+        if k < len(mask) and mask[k] == ';':
+            end = k + 1
+        lead = text[st:fe]
+        ind = lead[:len(lead) - len(lead.lstrip())]
+        text = text[:st] + ind + 'for %s in %s %s' % (m.group(1), recv, body) + text[end:]
+        fired += 1
+    return text, fired
+
+
+RULES = {'T1': rule_T1, 'T2': rule_T2, 'T3': rule_T3, 'T5': rule_T5, 'T9': rule_T9, 'T10': rule_T10, 'T11': rule_T11, 'T12': rule_T12, 'T13': rule_T13, 'T14': rule_T14, 'T15': rule_T15, 'T16': rule_T16, 'T17': rule_T17}
 
 
 def t6_key(callees):
@@ -624,6 +668,9 @@ def rule_T6(body, callees, arg):
     return body, fired
 
 
+FRAGILE = []      # reasons why the annotations of the function being extracted may not sit where they were written for (reset per function)
+
+
 def rule_T7(body, k, header):
     """spec annotation of the k-th closure literal `|params| EXPR`: the header is replaced by `header`
     (same parameter names, now typed, plus `-> (r: T) ensures ..`) and a non-block body is wrapped in braces"""
@@ -632,10 +679,11 @@ def rule_T7(body, k, header):
     for m in re.finditer(r'\|([^|()]*)\|', mask):
         # a closure header is preceded by `=`, `(`, `,` or `move`
         pre = mask[:m.start()].rstrip()
-        if pre.endswith(('=', '(', ',', 'move')) and not pre.endswith(('==', '<=', '>=', '!=')):
+        if pre.endswith(('=', '(', ',', 'move', '&')) and not pre.endswith(('==', '<=', '>=', '!=', '&&')):
             found.append(m)
     if len(found) < k:
-        raise ExtractError('closure #%d not found (function has %d closures)' % (k, len(found)))
+        FRAGILE.append('closure #%d of the contract is gone (function has %d closures)' % (k, len(found)))
+        return body, 0
     m = found[k - 1]
     orig_params = [x.strip().split(':')[0].strip() for x in m.group(1).split(',') if x.strip()]
     hm = re.match(r'\s*\|([^|]*)\|', header)
@@ -654,7 +702,32 @@ def rule_T7(body, k, header):
         return parts + [cur]
     new_params = [x.strip().split(':')[0].strip() for x in _top_split(hm.group(1)) if x.strip()] if hm else None
     if new_params != orig_params:
-        raise ExtractError('closure #%d: parameter names %s do not match the annotation %s' % (k, orig_params, new_params))
+        if new_params is None or len(new_params) != len(orig_params):
+            raise ExtractError('closure #%d: parameter names %s do not match the annotation %s' % (k, orig_params, new_params))
+        # same arity, other names: the closure's parameters are alpha-renamed to the names the annotation uses (the annotation may
+        # now sit on a different closure than the one it was written for: a failure of this function is then inconclusive)
+        FRAGILE.append('closure #%d: parameters %s renamed to %s' % (k, orig_params, new_params))
+        j0 = m.end()
+        while mask[j0] in ' \t\n':
+            j0 += 1
+        if mask[j0] == '{':
+            e0 = match_brace(mask, j0) + 1
+        else:
+            d0, e0 = 0, j0
+            while e0 < len(mask):
+                ch = mask[e0]
+                if ch in '([{':
+                    d0 += 1
+                elif ch in ')]}':
+                    if d0 == 0:
+                        break
+                    d0 -= 1
+                elif ch in ';,' and d0 == 0:
+                    break
+                e0 += 1
+        seg, _n = alpha_rename(body[m.start():e0], orig_params, new_params, 'closure #%d' % k)
+        body = body[:m.start()] + seg + body[e0:]
+        return rule_T7(body, k, header)
     # body of the closure: up to the terminating `;` / `,` / `)` at depth 0
     j = m.end()
     while mask[j] in ' \t\n':
@@ -692,7 +765,7 @@ def auto_annotate_boolean_closures(body):
         m = None
         for c in re.finditer(r'\|([^|()]*)\|', mask[pos:]):
             pre = mask[:pos + c.start()].rstrip()
-            if pre.endswith(('=', '(', ',', 'move')) and not pre.endswith(('==', '<=', '>=', '!=')):
+            if pre.endswith(('=', '(', ',', 'move', '&')) and not pre.endswith(('==', '<=', '>=', '!=', '&&')):
                 m = c
                 break
         if not m:
@@ -734,6 +807,26 @@ def auto_annotate_boolean_closures(body):
         pos = start + len(new)
         fired += 1
     return body, fired
+
+
+def count_unannotated_closures(text: str) -> int:
+    """closure literals `|params| BODY` that carry no contract (no `-> (..) requires/ensures`): a caller that depends on what such a closure
+    computes cannot be verified, and a failure of the enclosing function is then NOT evidence of a violation"""
+    mask = code_mask(text)
+    n = 0
+    for c in re.finditer(r'\|([^|()]*)\|', mask):
+        pre = mask[:c.start()].rstrip()
+        if not (pre.endswith(('=', '(', ',', 'move', '&')) and not pre.endswith(('==', '<=', '>=', '!=', '&&'))):
+            continue
+        j = c.end()
+        while j < len(mask) and mask[j] in ' \t\n':
+            j += 1
+        if mask[j:j + 2] == '->':
+            k = mask.find('{', j)
+            if re.search(r'\b(ensures|requires)\b', mask[j:k if k > 0 else j + 400]):
+                continue
+        n += 1
+    return n
 
 
 def param_list_open(mask):
@@ -811,6 +904,64 @@ def loops_gone(body: str, spec: dict, fired: dict) -> bool:
     return False
 
 
+def inline_private_helpers(src, spec, body, known_names):
+    """A function under contract calls `self.h(args)` / `Self::h(args)` where `h` is unknown to the template but IS a private function of
+    the same impl block, not recursive, without `return` / `?`: the call is replaced by the block `{ let p1 = a1; ..; BODY }` (a Rust block
+    is an expression, so this works in statement and in expression position; `self` means the same object). The verified text then is
+    what the caller really executes. Helpers that do not qualify are left alone (the unit then fails to compile: UNDECIDED)."""
+    fired = {}
+    for _round in range(4):
+        mask = code_mask(body)
+        hit = None
+        for m in re.finditer(r'\b(self\s*\.|Self\s*::)\s*(\w+)\s*\(', mask):
+            name = m.group(2)
+            if name in known_names or name == spec['fn']:
+                continue
+            try:
+                loc = src.find_fn(spec.get('impl') or None, name, 0)
+            except ExtractError:
+                try:
+                    loc = src.find_fn(r'^impl\b', name, 0)     # another (inherent) impl block of the same file; ambiguous names are refused
+                except ExtractError:
+                    continue
+            hsig = src.text[loc['start']:loc['body_open']]
+            hbody = src.text[loc['body_open']:loc['end']]
+            hmask = code_mask(hbody)
+            if re.match(r'\s*pub\b', hsig) or re.search(r'\breturn\b|\?\s*[;\.\)]|\b' + name + r'\s*\(', hmask):
+                continue
+            smask = code_mask(hsig)
+            pop = param_list_open(smask)
+            pcl = match_brace(smask, pop, '(', ')')
+            params = [x.strip() for x in split_top_commas(hsig[pop + 1:pcl], smask[pop + 1:pcl]) if x.strip()]
+            takes_self = bool(params) and re.match(r'(&\s*(mut\s+)?)?self$', params[0]) is not None
+            if takes_self != m.group(1).startswith('self'):
+                continue
+            pnames = []
+            ok = True
+            for prm in (params[1:] if takes_self else params):
+                mm = re.match(r'(mut\s+)?(\w+)\s*:', prm)
+                if not mm:
+                    ok = False
+                    break
+                pnames.append(('mut ' if mm.group(1) else '') + mm.group(2))
+            if not ok:
+                continue
+            op = m.end() - 1
+            cp = match_brace(mask, op, '(', ')')
+            args = [x.strip() for x in split_top_commas(body[op + 1:cp], mask[op + 1:cp]) if x.strip()]
+            if len(args) != len(pnames):
+                continue
+            hit = (m.start(), cp + 1, name, pnames, args, hbody.strip()[1:-1].strip())
+            break
+        if not hit:
+            break
+        st, en, name, pnames, args, inner = hit
+        lets = ''.join('let %s = %s; ' % (pn, a) for pn, a in zip(pnames, args))
+        body = body[:st] + '{ ' + lets + inner + ' }' + body[en:]
+        fired['inlined:' + name] = fired.get('inlined:' + name, 0) + 1
+    return body, fired
+
+
 def extract_fn(repo: str, spec: dict):
     """spec: file, impl (regex or ''), fn, nth, rules [..], ret, contract (text), proof (text),
     loops {k: text}, attrs (text placed before fn), sig_sub [(regex, repl)], body_sub (disallowed)
@@ -821,6 +972,10 @@ def extract_fn(repo: str, spec: dict):
     sig = src.text[loc['start']:loc['body_open']]
     body = src.text[loc['body_open']:loc['end']]          # includes braces
     fired = {}
+    del FRAGILE[:]
+    if spec.get('known_names') is not None:
+        body, inl = inline_private_helpers(src, spec, body, spec['known_names'])
+        fired.update(inl)
     for r in spec.get('rules', []):
         body, n = RULES[r](body)
         fired[r] = n
@@ -836,6 +991,7 @@ def extract_fn(repo: str, spec: dict):
     body, n = auto_annotate_boolean_closures(body)
     if n:
         fired['T7-auto:boolean closures'] = n
+    n_unannotated = count_unannotated_closures(body)      # counted on the code, before invariants / proof blocks (which may hold spec closures) are spliced in
     for gp in spec.get('ghost_params', []):
         mask = code_mask(sig)
         op = param_list_open(mask)
@@ -875,7 +1031,7 @@ def extract_fn(repo: str, spec: dict):
     out += body + '\n'
     info = dict(file=spec['file'], impl=loc['header'], fn=spec['fn'],
                 lines=[src.line_of(loc['start']), src.line_of(loc['end'] - 1)],
-                sha256=sha256(raw), rules_fired=fired)
+                sha256=sha256(raw), rules_fired=fired, unannotated_closures=n_unannotated + len(FRAGILE), fragile=list(FRAGILE))
     return out, info
 
 
@@ -940,7 +1096,8 @@ def extract_closure_fn(repo: str, spec: dict):
     out += body + '\n'
     start = loc['body_open'] + m.start()
     info = dict(file=spec['file'], impl=loc['header'], fn='%s::<closure %s>' % (spec['fn'], spec['let']),
-                lines=[src.line_of(start), src.line_of(loc['body_open'] + end)], sha256=sha256(raw), rules_fired=dict(fired, X1c='closure body -> function'))
+                lines=[src.line_of(start), src.line_of(loc['body_open'] + end)], sha256=sha256(raw), rules_fired=dict(fired, X1c='closure body -> function'),
+                unannotated_closures=count_unannotated_closures(body), verified_as=re.search(r'\bfn\s+(\w+)', spec['signature']).group(1))
     return out, info
 
 
@@ -988,6 +1145,7 @@ def extract_loop_body_fn(repo: str, spec: dict):
     for (callees, arg) in spec.get('ghost_args', []):
         body, k = rule_T6(body, callees, arg)
         fired[t6_key(callees)] = k
+    n_unannotated = count_unannotated_closures(body)
     gone = loops_gone(body, spec, fired)
     for kk in sorted(spec.get('loop_tails', {}) if not gone else {}, reverse=True):
         lob = nth_loop_brace(body, int(kk))
@@ -1006,7 +1164,8 @@ def extract_loop_body_fn(repo: str, spec: dict):
         out += '\n' + spec['contract'].rstrip() + '\n    '
     out += body + '\n'
     info = dict(file=spec['file'], impl=loc['header'], fn='%s::<loop body>' % spec['fn'],
-                lines=[src.line_of(ob), src.line_of(cb)], sha256=sha256(raw), rules_fired=dict(fired, X1='thread loop body -> function'))
+                lines=[src.line_of(ob), src.line_of(cb)], sha256=sha256(raw), rules_fired=dict(fired, X1='thread loop body -> function'),
+                unannotated_closures=n_unannotated, verified_as=re.search(r'\bfn\s+(\w+)', spec['signature']).group(1))
     return out, info
 
 
